@@ -336,7 +336,7 @@ pub fn check(s: &'static dyn Proto, c: &Case, st: &mut Stats, _k: &KnownFindings
 
 pub const BUDGET: Budget = Budget {
     quick: (900, 300, 100),
-    thorough: (12000, 3000, 1000),
+    thorough: (40000, 10000, 3000),
     shrink: 200,
 };
 
